@@ -363,3 +363,24 @@ Example C02_move_vert_examples :
   /\ move_vert (T "ab" ++ [10] ++ T "c") true 3 1 = 3%nat
   /\ move_vert (T "ab" ++ [10] ++ T "c") true 1 3 = 3%nat.
 Proof. vm_compute. repeat split. Qed.
+
+(** (24) Whole lines taken by d go back with P: with the cursor anywhere on the line that took their place, P gives the
+    text as it was - for lines that are not the last of the text (there P, which puts above the cursor's line, cannot
+    put them back behind the last line). *)
+Theorem C02_delete_lines_then_P_restores :
+  forall (ins t : text) (i a b : nat) (kc : bool) (c : nat),
+    (a <= b <= length t)%nat ->
+    (line_end t b < length t)%nat ->
+    let s' := apply_op OpDelete ins (mkO t i None) (RLines a b kc) in
+    (c <= length (o_text s'))%nat -> line_start_from (o_text s') c = line_start_from t a ->
+    o_text (put false 1 (mkO (o_text s') c (o_reg s'))) = t.
+Proof. exact delete_lines_then_P_restores. Qed.
+Print Assumptions C02_delete_lines_then_P_restores.
+
+(** ddP on the middle line of three, and djP on the first two: the text is back; the cursor d leaves meets the premise *)
+Example C02_delete_lines_then_P_examples :
+  let t := T "a" ++ [10] ++ T "bc" ++ [10] ++ T "d" in
+  o_text (put false 1 (run_lines OpDelete [] t 1 3)) = t
+  /\ o_text (put false 1 (run_op_v OpDelete [] t VDown None 0)) = t
+  /\ line_start_from (o_text (run_lines OpDelete [] t 1 3)) (o_cur (run_lines OpDelete [] t 1 3)) = line_start_from t 3.
+Proof. vm_compute. repeat split. Qed.
